@@ -87,13 +87,18 @@ func (e extractor) extract(node ast.Node) {
 		if err := pomsg.Validate(node); err != nil {
 			exit(err)
 		}
+		var children = node.Body.Children()
+		if len(children) == 0 {
+			return // an empty message: there is nothing to translate
+		}
 		var pluralVar = ""
-		if plural, ok := node.Body.Children()[0].(*ast.MsgPluralNode); ok {
+		if plural, ok := children[0].(*ast.MsgPluralNode); ok {
 			pluralVar = " var=" + plural.VarName
 		}
 		e.file.Messages = append(e.file.Messages, po.Message{
 			Comment: po.Comment{
-				ExtractedComments: []string{node.Desc},
+				// (one comment line per line of the description)
+				ExtractedComments: strings.Split(node.Desc, "\n"),
 				References:        []string{fmt.Sprintf("id=%d%v", node.ID, pluralVar)},
 			},
 			Ctxt:     node.Meaning,
